@@ -718,18 +718,21 @@ pub fn run_check(e: &Entry, tier: Tier, seed: u64) -> RunOutcome {
     let ncpu = std::thread::available_parallelism()
         .map(|n| n.get())
         .unwrap_or(4);
-    let shards = ncpu.min(e.max_shards).max(1).min((cases as usize).max(1));
+    // at most `ncpu` workers at a time; a worker gets at most VERIF_SHARD_CASES cases (default 60 000),
+    // which bounds what the analyzer's never-freed graphs can pile up in one process
+    let cap: usize = std::env::var("VERIF_SHARD_CASES").ok().and_then(|s| s.parse().ok()).unwrap_or(60_000);
+    let width = ncpu.min(e.max_shards).max(1);
+    let shards = width.max((cases as usize).div_ceil(cap.max(1))).min((cases as usize).max(1));
     let per = cases / shards as u32;
     let work = cache_dir().join("work").join(e.id);
     let _ = fs::remove_dir_all(&work);
     let _ = fs::create_dir_all(&work);
     let exe = std::env::current_exe().expect("current_exe");
-    let mut children = vec![];
-    for s in 0..shards {
+    let spawn_shard = |s: usize| -> std::io::Result<(usize, std::process::Child, PathBuf, PathBuf)> {
         let n = if s == 0 { cases - per * (shards as u32 - 1) } else { per };
         let out = work.join(format!("shard-{s}.json"));
         let cur = work.join(format!("current-{s}.json"));
-        let child = Command::new(&exe)
+        Command::new(&exe)
             .arg("shard")
             .arg(e.id)
             .arg(tier.name())
@@ -745,15 +748,12 @@ pub fn run_check(e: &Entry, tier: Tier, seed: u64) -> RunOutcome {
                     .map(Stdio::from)
                     .unwrap_or_else(|_| Stdio::null()),
             )
-            .spawn();
-        match child {
-            Ok(c) => children.push((s, c, out, cur)),
-            Err(err) => {
-                eprintln!("cannot spawn shard: {err}");
-                if exit == 0 { exit = 2; }
-            }
-        }
-    }
+            .spawn()
+            .map(|c| (s, c, out, cur))
+    };
+    let mut pending: std::collections::VecDeque<usize> = (0..shards).collect();
+    let mut running: Vec<(usize, std::process::Child, PathBuf, PathBuf)> = vec![];
+    let mut children: Vec<(usize, std::io::Result<std::process::ExitStatus>, PathBuf, PathBuf)> = vec![];
     if e.release_too {
         let rel = exe
             .parent()
@@ -778,7 +778,7 @@ pub fn run_check(e: &Entry, tier: Tier, seed: u64) -> RunOutcome {
                     .stderr(Stdio::null())
                     .spawn();
                 match child {
-                    Ok(c) => children.push((s, c, out, cur)),
+                    Ok(c) => running.push((s, c, out, cur)),
                     Err(err) => {
                         eprintln!("cannot spawn release shard: {err}");
                         if exit == 0 { exit = 2; }
@@ -825,9 +825,42 @@ pub fn run_check(e: &Entry, tier: Tier, seed: u64) -> RunOutcome {
             exit = 1;
         }
     }
+    // drive the queue of workers
+    while !pending.is_empty() || !running.is_empty() {
+        while running.len() < width + usize::from(e.release_too) && !pending.is_empty() {
+            let s = pending.pop_front().unwrap_or(0);
+            match spawn_shard(s) {
+                Ok(x) => running.push(x),
+                Err(err) => {
+                    eprintln!("cannot spawn shard: {err}");
+                    if exit == 0 { exit = 2; }
+                }
+            }
+        }
+        let mut k = 0;
+        let mut progressed = false;
+        while k < running.len() {
+            match running[k].1.try_wait() {
+                Ok(Some(st)) => {
+                    let (s, _, out, cur) = running.remove(k);
+                    children.push((s, Ok(st), out, cur));
+                    progressed = true;
+                }
+                Ok(None) => k += 1,
+                Err(err) => {
+                    let (s, _, out, cur) = running.remove(k);
+                    children.push((s, Err(err), out, cur));
+                    progressed = true;
+                }
+            }
+        }
+        if !progressed {
+            std::thread::sleep(std::time::Duration::from_millis(20));
+        }
+    }
+    children.sort_by_key(|c| c.0);
     let mut deaths = 0;
-    for (s, mut c, out, cur) in children {
-        let status = c.wait();
+    for (s, status, out, cur) in children {
         let ok = status.as_ref().map(|st| st.success()).unwrap_or(false);
         match fs::read_to_string(&out)
             .ok()
